@@ -25,6 +25,7 @@ harnesses! {
     h_c16_sched => delayed_schedule(),
     h_c16_fire => delayed_fire(),
     h_c16_two => delayed_two(),
+    h_c16_units => delay_units(),
 }
 
 pub struct Topo { pub ex: FsmExecutor, pub g: Vec<GlobalDataArc> }
@@ -385,4 +386,19 @@ fn delayed_fire() {
         drop(fsm);
     }
     vnd_obs(1, if ok { 1 } else { 0 });
+}
+
+/// C16 ("not early"): the delay a document spells is the delay that is scheduled — every unit of the CSS2 style duration
+/// (d, h, m, s, ms in both cases) times a few magnitudes against the table of the Recommendation
+fn delay_units() {
+    const U: [(&str, i64); 10] = [("d", 86_400_000), ("D", 86_400_000), ("h", 3_600_000), ("H", 3_600_000), ("m", 60_000), ("M", 60_000),
+                                  ("s", 1000), ("S", 1000), ("ms", 1), ("MS", 1)];
+    const N: [i64; 4] = [1, 2, 30, 1500];
+    let u = vnd_conc(vnd_range(0, 9, 1), 9) as usize;
+    let n = vnd_conc(vnd_range(0, 3, 2), 3) as usize;
+    let text = format!("{}{}", N[n], U[u].0);
+    let got = parse_duration_to_milliseconds(text.as_str());
+    vnd_cover(1630);
+    vnd_check(1630, got == N[n] * U[u].1);
+    vnd_obs(1, got as u64);
 }
